@@ -282,7 +282,7 @@ def h_history(props, nops, recursive, settled, one_per_read, spelling, full, fir
     if fault:
         # the n-th inotify_add_watch made from now on fails (ENOENT: the entry vanished again, ENOTDIR: it was replaced
         # by a file, EACCES: it became unreadable) - a transient failure the pipeline must survive
-        fs.fault_n = api.choice("fault.n", (1, 2))
+        fs.fault_n = api.choice("fault.n", (1, 2, 3))
         fs.fault_errno = api.choice("fault.errno", (errno.ENOENT, errno.ENOTDIR, errno.EACCES))
         fs.armed = True
     initial = []
@@ -291,18 +291,21 @@ def h_history(props, nops, recursive, settled, one_per_read, spelling, full, fir
             initial.append(p)
     ops = []
     for i in range(nops):
-        if i == 0 and first is not None:
+        if first is not None and isinstance(first[0], tuple) and i < len(first):
+            op, p, d = first[i]          # a directed history with several fixed operations
+        elif i == 0 and first is not None and not isinstance(first[0], tuple):
             op, p, d = first
         else:
             op = api.choice("op" + str(i), OPS)
             p = api.choice("src" + str(i), SRC)
             d = api.choice("dst" + str(i), DST)
         api.assume(valid(fs, op, p, d))
-        if fault:
+        if fault and first is None:
             # only operations that bring a directory into the tree make the library add watches (the others behave as
             # in the sessions without a fault)
             api.assume((op == "mkdir") | (op == "rename"))
-        if (not settled) and i > 0:
+        if (not settled) and i > 0 and tuple(props) != ("C07",):
+            # (C07 quantifies over all timings: no pacing condition for its histories)
             api.assume(paced(ops[i - 1], op, p, d, prev_kind))
         before_kind = dict(fs.kind)
         prev_kind = before_kind[p] if p in before_kind else "f"
